@@ -856,6 +856,11 @@ func (c *FnCtx) generate() (vc *FnVC, err error) {
 		c.translateBlock(b, entryItems)
 	}
 	if c.con != nil {
+		for key := range c.con.AtCall {
+			if !c.atNewSeen["call:"+key] {
+				panic("spec: `atcall " + key + "` in the contract of " + c.fnKey() + " matches no call in the function")
+			}
+		}
 		for key := range c.con.AtStore {
 			if !c.atNewSeen["store:"+key] {
 				panic("spec: `atstore " + key + "` in the contract of " + c.fnKey() + " matches no store to that field in the function")
